@@ -190,3 +190,9 @@ Proof.
     rewrite (strip1 _ _ _ _ (ws_last_nl _)).
     rewrite (strip_stop _ _ _ H1). apply rev_involutive.
 Qed.
+
+Lemma trim_blank_prefix x : trim x = x -> trim (" " :: x) = x.
+Proof.
+  intros H. unfold trim in *. unfold trim_start at 1. cbn [length].
+  rewrite (strip1 _ _ _ _ (ws_head_blank _)). exact H.
+Qed.
